@@ -8,32 +8,36 @@
                    changed, recorded from the real kernels on the full lattice particle set      *)
 EXTENDS TscStripes, Json, IOUtils, SequencesExt
 
-Obs == JsonDeserialize(IOEnv.TRACE_FILE)
+\* NOTE: the observation file is parsed ONCE, inside the LET of Verdict; every operator takes the parsed value as a parameter
+\* (a zero-arity definition over IOEnv is re-evaluated — the file re-parsed — on every reference).
 
 \* an accepted configuration that the specification cannot prove free of lost updates
-ConcurrentPairs == { <<Obs.decisions[i].n1d, Obs.decisions[i].np>> : i \in
-                       { j \in 1..Len(Obs.decisions) : Obs.decisions[j].accepted /\ Obs.decisions[j].nthread > 1 /\ Obs.decisions[j].np > 2 } }
-UnsafePairsObserved == { pr \in ConcurrentPairs : \E o \in ToSet(Obs.offsets) : ~Safe(pr[2], pr[1], o) }
-UnsafeObserved == { i \in 1..Len(Obs.decisions) :
-                      LET d == Obs.decisions[i] IN
-                      d.accepted /\ d.nthread > 1 /\ d.np > 2 /\ <<d.n1d, d.np>> \in UnsafePairsObserved }
+ConcurrentPairs(obs) == { <<obs.decisions[i].n1d, obs.decisions[i].np>> : i \in
+                            { j \in 1..Len(obs.decisions) : obs.decisions[j].accepted /\ obs.decisions[j].nthread > 1 /\ obs.decisions[j].np > 2 } }
+UnsafePairsObserved(obs, pairs) == { pr \in pairs : \E o \in ToSet(obs.offsets) : ~Safe(pr[2], pr[1], o) }
+UnsafeObserved(obs, unsafe) == { i \in 1..Len(obs.decisions) :
+                                   LET d == obs.decisions[i] IN
+                                   d.accepted /\ d.nthread > 1 /\ d.np > 2 /\ <<d.n1d, d.np>> \in unsafe }
 \* a rejected configuration must be one the rule is allowed to reject: anything with >2 stripes
 \* and >1 thread may be rejected; 1 thread or <=2 stripes never needs rejection (not an error to
 \* reject, only recorded)
 \* observed footprints: pairwise conflict among same-pass stripes, on the rows the real code touched
-FootprintConflicts == { i \in 1..Len(Obs.footprints) :
-                          LET f == Obs.footprints[i] IN
-                          \E s, u \in 0..(f.np - 1) :
-                             /\ s < u /\ SamePass(s, u)
-                             /\ \/ ToSet(f.touched[s + 1]) \cap ToSet(f.nz[u + 1]) # {}
-                                \/ ToSet(f.nz[s + 1]) \cap ToSet(f.touched[u + 1]) # {} }
+FootprintConflicts(obs) == { i \in 1..Len(obs.footprints) :
+                               LET f == obs.footprints[i] IN
+                               \E s, u \in 0..(f.np - 1) :
+                                  /\ s < u /\ SamePass(s, u)
+                                  /\ \/ ToSet(f.touched[s + 1]) \cap ToSet(f.nz[u + 1]) # {}
+                                     \/ ToSet(f.nz[s + 1]) \cap ToSet(f.touched[u + 1]) # {} }
 \* drift: real rows outside the model's stripe footprint (model too small => TLC's Safe would be unsound)
-FootprintOutsideModel == { i \in 1..Len(Obs.footprints) :
-                             LET f == Obs.footprints[i] IN
-                             \E s \in 0..(f.np - 1) :
-                                \/ ~(ToSet(f.touched[s + 1]) \subseteq StripeRows(s, f.np, f.n1d, f.o))
-                                \/ ~(ToSet(f.nz[s + 1]) \subseteq StripeRowsNZ(s, f.np, f.n1d, f.o)) }
-Verdict == [unsafe |-> SetToSeq(UnsafeObserved), conflicts |-> SetToSeq(FootprintConflicts),
-            outside |-> SetToSeq(FootprintOutsideModel)]
-EmitVerdict(x) == JsonSerialize(IOEnv.VERDICT_OUT, Verdict)
+FootprintOutsideModel(obs) == { i \in 1..Len(obs.footprints) :
+                                  LET f == obs.footprints[i] IN
+                                  \E s \in 0..(f.np - 1) :
+                                     \/ ~(ToSet(f.touched[s + 1]) \subseteq StripeRows(s, f.np, f.n1d, f.o))
+                                     \/ ~(ToSet(f.nz[s + 1]) \subseteq StripeRowsNZ(s, f.np, f.n1d, f.o)) }
+Verdict(x) == LET obs == JsonDeserialize(IOEnv.TRACE_FILE)
+                  pairs == ConcurrentPairs(obs)
+                  unsafe == UnsafePairsObserved(obs, pairs)
+              IN [unsafe |-> SetToSeq(UnsafeObserved(obs, unsafe)), conflicts |-> SetToSeq(FootprintConflicts(obs)),
+                  outside |-> SetToSeq(FootprintOutsideModel(obs))]
+EmitVerdict(x) == JsonSerialize(IOEnv.VERDICT_OUT, Verdict(x))
 =====================================================================================
